@@ -71,7 +71,7 @@ func drawC05(rt *rapid.T) interface{} {
 		ttls = []int64{0, 0, 1, 2, 5, 10, -1}
 	}
 	nt := 1
-	maxOps := 40
+	maxOps := hx.Pick(40, 100)
 	if sc.Mode == "conc" || sc.Mode == "rconc" {
 		nt = rapid.IntRange(2, 4).Draw(rt, "ntasks")
 		maxOps = 6
@@ -655,6 +655,7 @@ func TestC05(t *testing.T) {
 		Rule: "three scenario classes drawn by rapid: seq = up to 40 Set(ttl?/must-not-exist/keep-ttl)/Get(plain/remove-after-get/update-ttl)/Remove/Clear/advance ops, size in {0,1,2,5}, default ttl in {-1,0,3,13}, checked op by op against a TTL-map model with a two-sided eviction bound; " +
 			"conc = 2-4 tasks x up to 6 ops incl. clock advances under the baton scheduler, porcupine against the model; redis = the same history on the redis-backed and the in-memory cache (positive ttls, keep-ttl on live keys, clock never on a deadline) with optional per-command failures; " +
 			"non-trivial = >=3 ops (seq/redis) or >=2 tasks and >=1 switch (conc); distinct = distinct hash of the operation/result log",
+		Probes: []string{"mode-seq", "mode-conc", "mode-redis", "mode-rconc", "rag-hit", "evicted-miss", "redis-command-failed", "clock-advance"},
 		Assumptions: []string{"clock readings are kept off deadlines (ttl = 3 mod 10, advances multiples of 10, base = 5 mod 10) except in the 'exact' sequential class where either answer is accepted on the deadline itself",
 			"a miss on a live key is legal only if at least `size` other distinct keys were touched since its last touch (two-sided bound; exact eviction order is not modelled)"},
 	})
